@@ -85,6 +85,12 @@ PROPS = {
         "shards": {"quick": 12, "thorough": 16}, "timeout": {"quick": 700, "thorough": 14000},
         "floors": {"quick": {"table_images_compared": 1200, "crash_points": 15}, "thorough": {"table_images_compared": 50000, "crash_points": 800}},
     },
+    "C09": {
+        "test": "TestVerif_C09", "level": "exploration",
+        "rule": "sessions with 1-4 QERs (boundary classes of 40-bit rates, GBR/non-GBR mixes, both gate bits, QFI 0-63) assigned to 1-3 PDR pairs with QER lists in different orders (with or without a QER common to all PDRs), on agents with random qci_qos_config (independent cbs/pbs/ebs/burst duration per QFI, new configuration every 30 histories), followed by 2-5 modifications that update existing QERs or create 1-3 QERs (with or without a PDR pair using them); every appQERLookup / sessionQERLookup entry received by the harness BESS server is compared by exact integer arithmetic; the session-level choice is judged from table membership and tracked across modifications; distinct = <QERs, pairs, common QER?, session-level present> and <modification kind, QERs, PDRs>",
+        "shards": {"quick": 12, "thorough": 16}, "timeout": {"quick": 600, "thorough": 12000},
+        "floors": {"quick": {"qos_entries_checked": 5000, "modifications": 500}, "thorough": {"qos_entries_checked": 300000}},
+    },
     "C10": {
         "test": "TestVerif_C10", "level": "exploration",
         "rule": "scenario = {0..n associations (some >100)} x {0-3 sessions} x trigger per association {release, silence->read timeout(+heartbeat failure), unanswered heartbeats, live} x requests in flight x datapath reply delay x PFCPIface.Stop() at a drawn offset (+-3.5 ms around the coinciding triggers), fresh agent per scenario, plus a 'refresh' family (association ends without Stop, same address:port associates afresh, bystander association checked); distinct = distinct interleaving signatures (datapath, heartbeat on/off, delay, stop offset in ms, multiset of per-association <trigger, order relative to Stop, release answered?, sessions>)",
